@@ -190,6 +190,26 @@ def run(R, tier):
                             {'algebra': spec, 'op': 'registered', 'keys': [list(ku), list(kv_)], 'coefficients': 'float', 'traced': dict(traced)},
                             f'registered functions were traced {traced} times for ONE key pattern {ku}, {kv_} in Algebra({algs.describe(spec)}) '
                             f'(inner is called directly and from inside outer1 and outer2)')
+            # integer powers (x ** n, n up to +-6), repeated with the same key pattern and fresh values: whatever machinery a power uses,
+            # nothing is generated or compiled on the repetitions
+            kp = tuple([0] + rng.sample(canon[1:], 1))
+            for n_ in (2, 3, 4, 5, -1, -4, 6):
+                def powcall():
+                    xv = oc.make_mv(alg, list(kp), [float(rng.randint(2, 5)), 1.0])
+                    try:
+                        return xv ** n_
+                    except Exception:  # noqa
+                        return None
+                powcall()
+                e0, c0 = len(probe.events), probe.compiles
+                powcall(); powcall()
+                R.count('power=repeated'); R.case(('power-repeated', ai, n_), True)
+                if len(probe.events) != e0 or probe.compiles != c0:
+                    R.violation({'clause': 'regenerated', 'coeff': 'power'},
+                                {'algebra': spec, 'op': 'pow', 'keys': [list(kp)], 'coefficients': 'float', 'n': n_,
+                                 'events': [(e[1], str(e[2])) for e in probe.events[e0:]][:4], 'compile_calls': probe.compiles - c0},
+                                f'x ** {n_} on keys {kp} in Algebra({algs.describe(spec)}): two repetitions after the first call generated {len(probe.events) - e0} functions '
+                                f'and called compile() {probe.compiles - c0} times')
             # key containers that are not tuples (a range): one generation per pattern all the same (after the model
             # comparison: a range is a different dictionary key than the tuple with the same entries)
             from kingdon import MultiVector
